@@ -11,6 +11,16 @@ enum SOp {
     W(Vec<u8>),
     F,
     Sleep(u64),
+    /// the thread panics while it owns the writer: the writer is dropped during unwinding
+    Panic,
+}
+
+/// logs the drop of writer `i` once the writer itself is gone, also when the thread unwinds
+struct DropLog(usize);
+impl Drop for DropLog {
+    fn drop(&mut self) {
+        sched::log(&format!("dropped {}", self.0));
+    }
 }
 
 struct LogWriter(Arc<StdMutex<Vec<u8>>>);
@@ -45,6 +55,9 @@ pub fn run(id: usize, rng: &mut Rng) -> String {
         if rng.chance(1, 2) {
             ops.push(SOp::F);
         }
+        if rng.chance(1, 6) {
+            ops.push(SOp::Panic);
+        }
         progs.push(ops);
     }
     let cfg = Config { seed: rng.next(), p_timer: *rng.pick(&[0u64, 50]), p_stay: *rng.pick(&[0u64, 500]), ..Config::default() };
@@ -58,9 +71,12 @@ pub fn run(id: usize, rng: &mut Rng) -> String {
             writers.push(builder.next().unwrap());
         }
         drop(builder);
-        for (i, (mut w, ops)) in writers.into_iter().zip(p2.into_iter()).enumerate() {
+        for (i, (w, ops)) in writers.into_iter().zip(p2.into_iter()).enumerate() {
             let sink2 = sink.clone();
             verif_rt::thread::spawn_named(&format!("writer{}", i), move || {
+                // declared first, dropped last: after `w`
+                let _dl = DropLog(i);
+                let mut w = w;
                 for op in ops {
                     match op {
                         SOp::W(b) => {
@@ -74,10 +90,10 @@ pub fn run(id: usize, rng: &mut Rng) -> String {
                             sched::log(&format!("flushed {} {}", i, sink2.lock().unwrap().len()));
                         }
                         SOp::Sleep(us) => stdx::thread::sleep(Duration::from_micros(us)),
+                        SOp::Panic => panic!("handler panics while holding writer {}", i),
                     }
                 }
                 drop(w);
-                sched::log(&format!("dropped {}", i));
             });
         }
         let quiet = sched::settle(60_000_000_000);
@@ -129,6 +145,7 @@ pub fn run(id: usize, rng: &mut Rng) -> String {
                     SOp::W(b) => format!("w{}", hex(b)),
                     SOp::F => "f".into(),
                     SOp::Sleep(u) => format!("s{}", u),
+                    SOp::Panic => "x".into(),
                 })
                 .collect::<Vec<_>>()
                 .join(".")
